@@ -20,6 +20,10 @@ GEN_STORE_TRUST = [
     "tools/gen_store.py (translator, same tokenizer/parser as gen_layout.py: regenerates lean/MultiModel/Gen/StoreGen.lean — elements_range_t assignment/swap/==/!=, every subarray::operator= taking a view, subarray::swap, the comparison operators of const_subarray for D>1 and D=1 including the bodies of lexicographical_compare — from the current array_ref.hpp on every run; MultiProofs/GenTieStore.lean proves each regenerated function equal to the hand model MultiModel/Store.lean; the glue definition lexRowsOf (how begin()/end() feed adl_lexicographical_compare) is part of the translator's prelude)",
 ]
 
+GEN_CASTS_TRUST = [
+    "tools/gen_casts.py (translator over gen_layout.py's evaluator: regenerates lean/MultiModel/Gen/CastGen.lean — member_cast and reinterpret_array_cast<U>()/(n) of const_subarray D>1, of subarray, and of the D=1 specialisation — from the current array_ref.hpp on every run; every pointer cast of base_ keeps the byte address, &(base_->*member) adds offsetof; MultiProofs/GenTieCast.lean proves each equal to MultiModel/Cast.lean; layout_t::scale itself is tied by GenTie.L_scale_tie)",
+]
+
 VIEW_RULE = ("programs = root extents (D 1..4, sizes 0..6, num_elements <= 240) + 0..7 in-domain view operations drawn from the real view's "
              "current shape + queries; distinct = different program text; non-trivial = at least one operation and a queried view with >= 2 elements")
 
